@@ -1099,6 +1099,8 @@ impl PacketReceiver for RtpTransport {
                 let mut listeners = self.listeners.lock();
                 let mut selected = None;
                 let mut bind_ssrc = false;
+                // MID carried by the packet when no receiver registered it.
+                let mut unregistered_mid: Option<&str> = None;
 
                 if let Some(rid) = &rid_bytes
                     && let Ok(rid_str) = std::str::from_utf8(rid)
@@ -1113,6 +1115,9 @@ impl PacketReceiver for RtpTransport {
                 {
                     selected = listeners.by_mid(mid_str);
                     bind_ssrc = selected.is_some();
+                    if selected.is_none() {
+                        unregistered_mid = Some(mid_str);
+                    }
                 }
 
                 if selected.is_none() {
@@ -1128,6 +1133,25 @@ impl PacketReceiver for RtpTransport {
                 if selected.is_none() {
                     selected = listeners.single_provisional();
                     bind_ssrc = false;
+                }
+
+                // A packet naming a media section nobody registered is still routed
+                // by SSRC / payload type / provisional listener (early media, an
+                // SSRC signalled for a receiver without MID), but never handed to a
+                // receiver that registered for ANOTHER media section.
+                if let (Some(tx), Some(mid_str)) = (selected.as_ref(), unregistered_mid)
+                    && listeners
+                        .routes
+                        .iter()
+                        .find(|route| route.tx.same_channel(tx))
+                        .and_then(|route| route.mid.as_deref())
+                        .is_some_and(|section| section != mid_str)
+                {
+                    trace!(
+                        "Dropping packet with unregistered MID {:?} (SSRC {} PT {}): receiver belongs to another media section",
+                        mid_str, ssrc, pt
+                    );
+                    return;
                 }
 
                 if let Some(tx) = selected.as_ref()
